@@ -72,7 +72,7 @@ _reg(TmProp('C12', ['Ea.C12.bound', 'Ea.C12.skip_closes', 'Ea.C12.cancel_first_o
 
 from props_filter import FilterProp  # noqa: E402
 
-_reg(FilterProp(['Ea.C17.calendar_is_gregorian', 'Ea.civil_succ', 'Ea.days_of_civil', 'Ea.C17.any_iff', 'Ea.C17.all_iff', 'Ea.C17.not_iff', 'Ea.C17.time_iff', 'Ea.C17.dow_iff', 'Ea.C17.dom_iff',
+_reg(FilterProp(['Ea.C17.calendar_is_gregorian', 'Ea.civil_succ', 'Ea.days_of_civil', 'Ea.civil_of_days', 'Ea.C17.any_iff', 'Ea.C17.all_iff', 'Ea.C17.not_iff', 'Ea.C17.time_iff', 'Ea.C17.dow_iff', 'Ea.C17.dom_iff',
                  'Ea.C17.moy_iff', 'Ea.C17.filters_local', 'Ea.C17.wrapped_range_mem', 'Ea.C17.single_int_range',
                  'Ea.C17.empty_rejected', 'Ea.C17.day_names_table', 'Ea.C17.month_names_table', 'Ea.C17.name_tables_in_range']))
 
